@@ -832,7 +832,7 @@ def gen_tms_dataset(rng, ctx, edge):
         enu = np.array([[gen_enu(rng, edge) for _ in range(3)] for _ in range(n)])
         d.add_position_delta("obs.dsite_pos", val=enu, system="enu", ref_pos=Position(np.repeat(ref[None, :], n, axis=0), system="trs"))
         d.meta["ref_epoch"] = (datetime(2000, 1, 1) + timedelta(days=rng.randrange(0, 9000), seconds=rng.choice([0, 0, 86399]))).isoformat()
-        d.meta["ref_frame"] = rng.choice(["IGb14", "IGS20", "ITRF2020"[:rng.choice([6, 8])], "X"])
+        d.meta["ref_frame"] = "ITRF2020" if edge == "frame8" else rng.choice(["IGb14", "IGS20", "ITRF14", "X"])
     for prob, fields, cls in TMS_FLOAT_GROUPS:
         if rng.random() < prob:
             if fields[0][1].startswith("obs.dsite_pos") and not has_enu:
@@ -856,7 +856,7 @@ def run_tms(ctx, t, acc, n_sets):
     seq = {m: tl.writer_sequence(W + "sinex_tms.py", m) for m in ("file_reference", "timeseries_ref_coordinate", "timeseries_columns", "timeseries_data")}
     fr_tmpl = ["tms_fr_description", "tms_fr_contact", "tms_fr_software", "tms_fr_input", "tms_fr_version"]
     for k in range(n_sets):
-        edge = rng.choice([None] * 12 + ["enu_big", "sigma_big", "count_big", "station10", "ref_big", "agency4"])
+        edge = rng.choice([None] * 12 + ["enu_big", "sigma_big", "count_big", "station10", "ref_big", "agency4", "frame8"])
         dset, station, rows = gen_tms_dataset(rng, ctx, edge)
         o = dict(contact=rng.choice(["a@b.no", "", "x" * 60]), data_agency=rng.choice(["NMA", "IG", "X"]), file_agency="NMAX" if edge == "agency4" else rng.choice(["NMA", "K"]),
                  input_=rng.choice(["in", "SINEX files"]), organization=rng.choice(["Norwegian Mapping Authority", "Org", ""]),
